@@ -10,105 +10,158 @@
    reported exactly once), SemOK, MutexOK.  With NExp = 0 (announce-only) they hold; with one explicit
    sync of the same publisher TLC produces the histories recorded as findings F-C08-2 / F-C08-3
    (DESIGN.md section 7).  The real Subscriber is bound to this model by trace validation
-   (SubscriberTrace.tla replays the same actions from recorded hook events).                       *)
+   (SubscriberTrace.tla replays the same actions from recorded hook events).
+
+   Handlers: a publisher's two locks and its pending slot live in a handler that is created on first use and removed by
+   the idle handler cleaner (Clean).  hgen[p] numbers the handlers publisher p has had, hexists[p] says whether the
+   current one is still in the subscriber's table, users[<<p, k>>] counts who is using handler k of p: the watcher
+   between looking the handler up (WRecv) and handing the message over (WSwap), the goroutine spawned for a message
+   until it ends, an explicit sync from the lookup to its return.  IDLE = "off": no cleaner; "fixed": the cleaner
+   removes only handlers nobody uses (time is abstracted: any unused handler may have been idle for long enough);
+   "pinned": the pinned code, where the expiry time was set at lookup, so a sync that outlasts the TTL loses its handler --
+   TLC then finds two syncs of one publisher at a time (OneSyncOK), which is the history reproduced on the real code
+   (DESIGN.md section 7).                                                                                        *)
+
 EXTENDS Integers, Sequences, FiniteSets, TLC
-CONSTANTS Pubs, MaxAd, SemMax, NExp
+CONSTANTS Pubs, MaxAd, SemMax, NExp, IDLE, MaxGen
 VARIABLES head, cache, outChan, wmsg, pending, spawned, asyncLock, syncLock, sem,
-          latest, g, e, hooks, events
-vars == <<head, cache, outChan, wmsg, pending, spawned, asyncLock, syncLock, sem, latest, g, e, hooks, events>>
-view == <<head, cache, outChan, wmsg, pending, spawned, asyncLock, syncLock, sem, latest, g, e, hooks>>
+          latest, g, e, hooks, events, hgen, hexists, users
+vars == <<head, cache, outChan, wmsg, pending, spawned, asyncLock, syncLock, sem, latest, g, e, hooks, events, hgen, hexists, users>>
+view == <<head, cache, outChan, wmsg, pending, spawned, asyncLock, syncLock, sem, latest, g, e, hooks, hgen, hexists, users>>
 GIds == Pubs \X (1..MaxAd)
 EIds == 1..NExp
-Idle == [pc |-> "idle", p |-> CHOOSE p \in Pubs : TRUE, msg |-> 0, stop |-> 0]
+HIds == Pubs \X (1..MaxGen)
+Idle == [pc |-> "idle", p |-> CHOOSE p \in Pubs : TRUE, msg |-> 0, stop |-> 0, h |-> 0]
 RECURSIVE Down(_, _)
 Down(hi, lo) == IF hi <= lo THEN <<>> ELSE <<hi>> \o Down(hi - 1, lo)
 Report(msg, stop) == IF msg > stop THEN Down(msg, stop) ELSE Down(msg, 0)
 
 Init == /\ head = [p \in Pubs |-> 0] /\ cache = {} /\ outChan = <<>> /\ wmsg = <<>>
-        /\ pending = [p \in Pubs |-> 0] /\ spawned = [p \in Pubs |-> 0]
-        /\ asyncLock = [p \in Pubs |-> <<>>] /\ syncLock = [p \in Pubs |-> <<>>] /\ sem = 0
+        /\ pending = [h \in HIds |-> 0] /\ spawned = [p \in Pubs |-> 0]
+        /\ asyncLock = [h \in HIds |-> <<>>] /\ syncLock = [h \in HIds |-> <<>>] /\ sem = 0
         /\ latest = [p \in Pubs |-> 0]
         /\ g = [i \in GIds |-> Idle] /\ e = [j \in EIds |-> Idle]
         /\ hooks = [p \in Pubs |-> <<>>] /\ events = <<>>
+        /\ hgen = [p \in Pubs |-> 0] /\ hexists = [p \in Pubs |-> FALSE] /\ users = [h \in HIds |-> 0]
+
+(* getOrCreateHandler(p): the current handler, or a new one; the caller becomes a user *)
+Gen(p) == IF hexists[p] THEN hgen[p] ELSE hgen[p] + 1
+Lookup(p) == /\ hgen' = [hgen EXCEPT ![p] = Gen(p)] /\ hexists' = [hexists EXCEPT ![p] = TRUE]
+             /\ users' = [users EXCEPT ![<<p, Gen(p)>>] = @ + 1]
+Unuse(h) == users' = [users EXCEPT ![h] = @ - 1]
+HUnch == UNCHANGED <<hgen, hexists, users>>
 
 Publish(p) == /\ head[p] < MaxAd /\ head' = [head EXCEPT ![p] = @ + 1]
-              /\ UNCHANGED <<cache, outChan, wmsg, pending, spawned, asyncLock, syncLock, sem, latest, g, e, hooks, events>>
+              /\ UNCHANGED <<cache, outChan, wmsg, pending, spawned, asyncLock, syncLock, sem, latest, g, e, hooks, events>> /\ HUnch
 Announce(p) == /\ head[p] > 0 /\ <<p, head[p]>> \notin cache /\ outChan = <<>>
                /\ cache' = cache \cup {<<p, head[p]>>} /\ outChan' = <<[p |-> p, c |-> head[p]]>>
-               /\ UNCHANGED <<head, wmsg, pending, spawned, asyncLock, syncLock, sem, latest, g, e, hooks, events>>
-WRecv == /\ wmsg = <<>> /\ outChan # <<>> /\ wmsg' = outChan /\ outChan' = <<>>
+               /\ UNCHANGED <<head, wmsg, pending, spawned, asyncLock, syncLock, sem, latest, g, e, hooks, events>> /\ HUnch
+(* the watcher receives a message and looks the publisher's handler up *)
+WRecv == /\ wmsg = <<>> /\ outChan # <<>>
+         /\ LET m == outChan[1] IN wmsg' = <<[p |-> m.p, c |-> m.c, h |-> Gen(m.p)]>> /\ Lookup(m.p)
+         /\ outChan' = <<>>
          /\ UNCHANGED <<head, cache, pending, spawned, asyncLock, syncLock, sem, latest, g, e, hooks, events>>
+(* pendingMsg.Swap: into an empty slot -- a goroutine is spawned and keeps the watcher's use of the handler; otherwise the
+   goroutine that is going to take the slot is a user already and the watcher gives its use back                        *)
 WSwap == /\ wmsg # <<>>
-         /\ LET m == wmsg[1] IN
-            /\ pending' = [pending EXCEPT ![m.p] = m.c]
-            /\ IF pending[m.p] = 0
+         /\ LET m == wmsg[1] h == <<m.p, m.h>> IN
+            /\ pending' = [pending EXCEPT ![h] = m.c]
+            /\ IF pending[h] = 0
                THEN /\ spawned' = [spawned EXCEPT ![m.p] = @ + 1]
-                    /\ g' = [g EXCEPT ![<<m.p, spawned[m.p] + 1>>] = [pc |-> "lockAsync", p |-> m.p, msg |-> 0, stop |-> 0]]
-               ELSE UNCHANGED <<spawned, g>>
+                    /\ g' = [g EXCEPT ![<<m.p, spawned[m.p] + 1>>] = [pc |-> "lockAsync", p |-> m.p, msg |-> 0, stop |-> 0, h |-> m.h]]
+                    /\ UNCHANGED users
+               ELSE UNCHANGED <<spawned, g>> /\ Unuse(h)
          /\ wmsg' = <<>>
-         /\ UNCHANGED <<head, cache, outChan, asyncLock, syncLock, sem, latest, e, hooks, events>>
+         /\ UNCHANGED <<head, cache, outChan, asyncLock, syncLock, sem, latest, e, hooks, events, hgen, hexists>>
 
 GStep(i) ==
-  LET r == g[i] p == r.p IN
-  \/ /\ r.pc = "lockAsync" /\ asyncLock[p] = <<>>
-     /\ asyncLock' = [asyncLock EXCEPT ![p] = <<i>>] /\ g' = [g EXCEPT ![i].pc = "sem"]
-     /\ UNCHANGED <<head, cache, outChan, wmsg, pending, spawned, syncLock, sem, latest, e, hooks, events>>
+  LET r == g[i] p == r.p h == <<r.p, r.h>> IN
+  \/ /\ r.pc = "lockAsync" /\ asyncLock[h] = <<>>
+     /\ asyncLock' = [asyncLock EXCEPT ![h] = <<i>>] /\ g' = [g EXCEPT ![i].pc = "sem"]
+     /\ UNCHANGED <<head, cache, outChan, wmsg, pending, spawned, syncLock, sem, latest, e, hooks, events>> /\ HUnch
   \/ /\ r.pc = "sem" /\ (SemMax = 0 \/ sem < SemMax)
      /\ sem' = sem + 1 /\ g' = [g EXCEPT ![i].pc = "take"]
-     /\ UNCHANGED <<head, cache, outChan, wmsg, pending, spawned, asyncLock, syncLock, latest, e, hooks, events>>
+     /\ UNCHANGED <<head, cache, outChan, wmsg, pending, spawned, asyncLock, syncLock, latest, e, hooks, events>> /\ HUnch
   \/ /\ r.pc = "take"
-     /\ pending' = [pending EXCEPT ![p] = 0]
-     /\ g' = [g EXCEPT ![i] = [r EXCEPT !.msg = pending[p], !.stop = latest[p],
-                                         !.pc = IF latest[p] = pending[p] THEN "release" ELSE "lockSync"]]
-     /\ UNCHANGED <<head, cache, outChan, wmsg, spawned, asyncLock, syncLock, sem, latest, e, hooks, events>>
-  \/ /\ r.pc = "lockSync" /\ syncLock[p] = <<>>
-     /\ syncLock' = [syncLock EXCEPT ![p] = <<i>>] /\ g' = [g EXCEPT ![i].pc = "sync"]
-     /\ UNCHANGED <<head, cache, outChan, wmsg, pending, spawned, asyncLock, sem, latest, e, hooks, events>>
+     /\ pending' = [pending EXCEPT ![h] = 0]
+     /\ g' = [g EXCEPT ![i] = [r EXCEPT !.msg = pending[h], !.stop = latest[p],
+                                         !.pc = IF latest[p] = pending[h] THEN "release" ELSE "lockSync"]]
+     /\ UNCHANGED <<head, cache, outChan, wmsg, spawned, asyncLock, syncLock, sem, latest, e, hooks, events>> /\ HUnch
+  \/ /\ r.pc = "lockSync" /\ syncLock[h] = <<>>
+     /\ syncLock' = [syncLock EXCEPT ![h] = <<i>>] /\ g' = [g EXCEPT ![i].pc = "sync"]
+     /\ UNCHANGED <<head, cache, outChan, wmsg, pending, spawned, asyncLock, sem, latest, e, hooks, events>> /\ HUnch
   \/ /\ r.pc = "sync"
      /\ hooks' = [hooks EXCEPT ![p] = @ \o Report(r.msg, r.stop)]
-     /\ syncLock' = [syncLock EXCEPT ![p] = <<>>] /\ g' = [g EXCEPT ![i].pc = "record"]
-     /\ UNCHANGED <<head, cache, outChan, wmsg, pending, spawned, asyncLock, sem, latest, e, events>>
+     /\ syncLock' = [syncLock EXCEPT ![h] = <<>>] /\ g' = [g EXCEPT ![i].pc = "record"]
+     /\ UNCHANGED <<head, cache, outChan, wmsg, pending, spawned, asyncLock, sem, latest, e, events>> /\ HUnch
   \/ /\ r.pc = "record"
      /\ latest' = [latest EXCEPT ![p] = r.msg] /\ events' = Append(events, <<p, r.msg>>)
      /\ g' = [g EXCEPT ![i].pc = "release"]
-     /\ UNCHANGED <<head, cache, outChan, wmsg, pending, spawned, asyncLock, syncLock, sem, e, hooks>>
+     /\ UNCHANGED <<head, cache, outChan, wmsg, pending, spawned, asyncLock, syncLock, sem, e, hooks>> /\ HUnch
   \/ /\ r.pc = "release"
-     /\ sem' = sem - 1 /\ asyncLock' = [asyncLock EXCEPT ![p] = <<>>] /\ g' = [g EXCEPT ![i].pc = "done"]
-     /\ UNCHANGED <<head, cache, outChan, wmsg, pending, spawned, syncLock, latest, e, hooks, events>>
+     /\ sem' = sem - 1 /\ asyncLock' = [asyncLock EXCEPT ![h] = <<>>] /\ g' = [g EXCEPT ![i].pc = "unuse"]
+     /\ UNCHANGED <<head, cache, outChan, wmsg, pending, spawned, syncLock, latest, e, hooks, events>> /\ HUnch
+  \/ /\ r.pc = "unuse"                      \* releaseHandler, the goroutine's last step
+     /\ Unuse(h) /\ g' = [g EXCEPT ![i].pc = "done"]
+     /\ UNCHANGED <<head, cache, outChan, wmsg, pending, spawned, asyncLock, syncLock, sem, latest, e, hooks, events, hgen, hexists>>
 
 EStep(j) ==
-  LET r == e[j] p == r.p IN
-  \/ /\ r.pc = "idle" /\ \E q \in Pubs : e' = [e EXCEPT ![j] = [pc |-> "getHead", p |-> q, msg |-> 0, stop |-> 0]]
+  LET r == e[j] p == r.p h == <<r.p, r.h>> IN
+  \/ /\ r.pc = "idle" /\ \E q \in Pubs : e' = [e EXCEPT ![j] = [pc |-> "getHead", p |-> q, msg |-> 0, stop |-> 0, h |-> Gen(q)]] /\ Lookup(q)
      /\ UNCHANGED <<head, cache, outChan, wmsg, pending, spawned, asyncLock, syncLock, sem, latest, g, hooks, events>>
   \/ /\ r.pc = "getHead"
      /\ e' = [e EXCEPT ![j] = [r EXCEPT !.msg = head[p], !.stop = latest[p],
-                                 !.pc = IF head[p] = 0 \/ head[p] = latest[p] THEN "done" ELSE "lockSync"]]
-     /\ UNCHANGED <<head, cache, outChan, wmsg, pending, spawned, asyncLock, syncLock, sem, latest, g, hooks, events>>
-  \/ /\ r.pc = "lockSync" /\ syncLock[p] = <<>>
-     /\ syncLock' = [syncLock EXCEPT ![p] = <<j>>] /\ e' = [e EXCEPT ![j].pc = "sync"]
-     /\ UNCHANGED <<head, cache, outChan, wmsg, pending, spawned, asyncLock, sem, latest, g, hooks, events>>
+                                 !.pc = IF head[p] = 0 \/ head[p] = latest[p] THEN "unuse" ELSE "lockSync"]]
+     /\ UNCHANGED <<head, cache, outChan, wmsg, pending, spawned, asyncLock, syncLock, sem, latest, g, hooks, events>> /\ HUnch
+  \/ /\ r.pc = "lockSync" /\ syncLock[h] = <<>>
+     /\ syncLock' = [syncLock EXCEPT ![h] = <<j>>] /\ e' = [e EXCEPT ![j].pc = "sync"]
+     /\ UNCHANGED <<head, cache, outChan, wmsg, pending, spawned, asyncLock, sem, latest, g, hooks, events>> /\ HUnch
   \/ /\ r.pc = "sync"
      /\ hooks' = [hooks EXCEPT ![p] = @ \o Report(r.msg, r.stop)]
-     /\ syncLock' = [syncLock EXCEPT ![p] = <<>>] /\ e' = [e EXCEPT ![j].pc = "record"]
-     /\ UNCHANGED <<head, cache, outChan, wmsg, pending, spawned, asyncLock, sem, latest, g, events>>
+     /\ syncLock' = [syncLock EXCEPT ![h] = <<>>] /\ e' = [e EXCEPT ![j].pc = "record"]
+     /\ UNCHANGED <<head, cache, outChan, wmsg, pending, spawned, asyncLock, sem, latest, g, events>> /\ HUnch
   \/ /\ r.pc = "record"
      /\ latest' = [latest EXCEPT ![p] = r.msg] /\ events' = Append(events, <<p, r.msg>>)
-     /\ e' = [e EXCEPT ![j].pc = "done"]
-     /\ UNCHANGED <<head, cache, outChan, wmsg, pending, spawned, asyncLock, syncLock, sem, g, hooks>>
+     /\ e' = [e EXCEPT ![j].pc = "unuse"]
+     /\ UNCHANGED <<head, cache, outChan, wmsg, pending, spawned, asyncLock, syncLock, sem, g, hooks>> /\ HUnch
+  \/ /\ r.pc = "unuse"
+     /\ Unuse(h) /\ e' = [e EXCEPT ![j].pc = "done"]
+     /\ UNCHANGED <<head, cache, outChan, wmsg, pending, spawned, asyncLock, syncLock, sem, latest, g, hooks, events, hgen, hexists>>
 
-Next == \/ \E p \in Pubs : Publish(p) \/ Announce(p)
+(* the idle handler cleaner removes p's handler from the table (a later lookup creates handler hgen[p] + 1) *)
+Clean(p) == /\ IDLE # "off" /\ hexists[p] /\ hgen[p] < MaxGen
+            /\ IDLE = "fixed" => users[<<p, hgen[p]>>] = 0
+            /\ hexists' = [hexists EXCEPT ![p] = FALSE]
+            /\ UNCHANGED <<head, cache, outChan, wmsg, pending, spawned, asyncLock, syncLock, sem, latest, g, e, hooks, events, hgen, users>>
+
+Next == \/ \E p \in Pubs : Publish(p) \/ Announce(p) \/ Clean(p)
         \/ WRecv \/ WSwap
         \/ \E i \in GIds : GStep(i)
         \/ \E j \in EIds : EStep(j)
 Spec == Init /\ [][Next]_vars
 
 Quiet == /\ outChan = <<>> /\ wmsg = <<>>
-         /\ \A p \in Pubs : pending[p] = 0 /\ head[p] = MaxAd /\ <<p, MaxAd>> \in cache
+         /\ \A h \in HIds : pending[h] = 0
+         /\ \A p \in Pubs : head[p] = MaxAd /\ <<p, MaxAd>> \in cache
          /\ \A i \in GIds : g[i].pc \in {"idle", "done"}
          /\ \A j \in EIds : e[j].pc \in {"idle", "done"}
 Count(s, x) == Cardinality({k \in 1..Len(s) : s[k] = x})
 LatestOK == Quiet => \A p \in Pubs : latest[p] = MaxAd
 OnceOK == Quiet => \A p \in Pubs : \A a \in 1..MaxAd : Count(hooks[p], a) = 1
 SemOK == SemMax = 0 \/ sem <= SemMax
-MutexOK == \A p \in Pubs : Len(syncLock[p]) <= 1 /\ Len(asyncLock[p]) <= 1
+MutexOK == \A h \in HIds : Len(syncLock[h]) <= 1 /\ Len(asyncLock[h]) <= 1
+(* C08: at most one sync of a publisher at a time -- whichever handler the syncs got *)
+Syncing(p) == Cardinality({i \in GIds : g[i].pc = "sync" /\ g[i].p = p}) + Cardinality({j \in EIds : e[j].pc = "sync" /\ e[j].p = p})
+OneSyncOK == \A p \in Pubs : Syncing(p) <= 1
+(* a handler that left the table is used by nobody, and has no message waiting in its slot *)
+Gone(h) == h[2] < hgen[h[1]] \/ (h[2] = hgen[h[1]] /\ ~hexists[h[1]])
+OrphanOK == \A h \in HIds : Gone(h) => users[h] = 0 /\ pending[h] = 0
+(* the use count is exactly: the watcher holding a message for the handler, the goroutines spawned for it that have not
+   ended, the explicit syncs that have not returned; a waiting message is always backed by a user                      *)
+Active(pc) == pc \notin {"idle", "done"}
+UsersOK == \A h \in HIds :
+             /\ users[h] = Cardinality({i \in GIds : Active(g[i].pc) /\ <<g[i].p, g[i].h>> = h})
+                           + Cardinality({j \in EIds : Active(e[j].pc) /\ <<e[j].p, e[j].h>> = h})
+                           + (IF wmsg # <<>> /\ <<wmsg[1].p, wmsg[1].h>> = h THEN 1 ELSE 0)
+             /\ pending[h] # 0 => users[h] > 0
 =============================================================================
